@@ -303,6 +303,8 @@ func VerifCrashRecovery(arg string) {
 	for _, n := range []string{"a", "b"} {
 		st.nodes[n].Engine = eng
 		w.slots[n] = vInt("slots_"+n, 0, 2)
+		// a node named explicitly in the request may be marked bypass
+		st.nodes[n].Bypass = vBool("bypass_" + n)
 	}
 	amount := vInt("amount", 0, 1<<30)
 	count := vInt("count", 1, maxCount)
